@@ -31,8 +31,17 @@ class SymPyException(Exception):
         return self.err
 
 
-def convert(t):
-    """Convert term t to SymPy term."""
+def convert(t, denoms=None):
+    """Convert term t to SymPy term.
+
+    Division in HOL is total (x / 0 = 0), while SymPy simplifies a
+    quotient assuming that the denominator is nonzero (for example
+    x / x becomes 1). Hence a denominator must be a nonzero number,
+    unless the list denoms is provided: then the other denominators
+    are appended to denoms, and the caller must make sure that they
+    are nonzero.
+
+    """
     if t.is_var():
         if t.T == RealType:
             return sympy.Symbol(t.name)
@@ -47,51 +56,61 @@ def convert(t):
         else:
             return sympy.Number(val)
     elif t.is_plus():
-        return convert(t.arg1) + convert(t.arg)
+        return convert(t.arg1, denoms) + convert(t.arg, denoms)
     elif t.is_minus():
-        return convert(t.arg1) - convert(t.arg)
+        return convert(t.arg1, denoms) - convert(t.arg, denoms)
     elif t.is_uminus():
-        return -convert(t.arg)
+        return -convert(t.arg, denoms)
     elif t.is_times():
-        return convert(t.arg1) * convert(t.arg)
+        return convert(t.arg1, denoms) * convert(t.arg, denoms)
     elif t.is_divides():
-        return convert(t.arg1) / convert(t.arg)
+        num, denom = convert(t.arg1, denoms), convert(t.arg, denoms)
+        if denom.is_number:
+            if denom.is_zero:
+                return sympy.Number(0)  # x / 0 = 0 in the HOL library
+            elif denom.is_zero is None:
+                raise SymPyException("convert: unable to decide whether %s is zero" % denom)
+        elif denoms is not None:
+            denoms.append(denom)
+        else:
+            raise SymPyException("convert: denominator %s may be zero" % denom)
+        return num / denom
     elif t.is_nat_power() and t.arg.is_number():
-        return convert(t.arg1) ** t.arg.dest_number()
+        return convert(t.arg1, denoms) ** t.arg.dest_number()
     elif t.is_real_power():
-        return convert(t.arg1) ** convert(t.arg)
+        return convert(t.arg1, denoms) ** convert(t.arg, denoms)
     elif t.is_comb('real_closed_interval', 2):
-        return sympy.Interval(convert(t.arg1), convert(t.arg))
+        return sympy.Interval(convert(t.arg1, denoms), convert(t.arg, denoms))
     elif t.is_comb('real_open_interval', 2):
-        return sympy.Interval.open(convert(t.arg1), convert(t.arg))
+        return sympy.Interval.open(convert(t.arg1, denoms), convert(t.arg, denoms))
     elif t.is_comb('sqrt', 1):
-        return sympy.sqrt(convert(t.arg))
+        return sympy.sqrt(convert(t.arg, denoms))
     elif t.is_comb('abs', 1):
-        return sympy.Abs(convert(t.arg))
+        return sympy.Abs(convert(t.arg, denoms))
     elif t.is_comb('exp', 1):
-        return sympy.exp(convert(t.arg))
+        return sympy.exp(convert(t.arg, denoms))
     elif t.is_comb('log', 1):
-        return sympy.log(convert(t.arg))
+        return sympy.log(convert(t.arg, denoms))
     elif t.is_comb('sin', 1):
-        return sympy.sin(convert(t.arg))
+        return sympy.sin(convert(t.arg, denoms))
     elif t.is_comb('cos', 1):
-        return sympy.cos(convert(t.arg))
+        return sympy.cos(convert(t.arg, denoms))
     elif t.is_comb('tan', 1):
-        return sympy.tan(convert(t.arg))
+        return sympy.tan(convert(t.arg, denoms))
     elif t.is_comb('cot', 1):
-        return sympy.cot(convert(t.arg))
+        return sympy.cot(convert(t.arg, denoms))
     elif t.is_comb('sec', 1):
-        return sympy.sec(convert(t.arg))
+        return sympy.sec(convert(t.arg, denoms))
     elif t.is_comb('csc', 1):
-        return sympy.csc(convert(t.arg))
+        return sympy.csc(convert(t.arg, denoms))
     elif t.is_greater_eq():
-        return convert(t.arg1) >= convert(t.arg)
+        return convert(t.arg1, denoms) >= convert(t.arg, denoms)
     elif t.is_greater():
-        return convert(t.arg1) > convert(t.arg)
+        return convert(t.arg1, denoms) > convert(t.arg, denoms)
     elif t.is_less_eq():
-        return convert(t.arg1) <= convert(t.arg)
+        return convert(t.arg1, denoms) <= convert(t.arg, denoms)
     elif t.is_less():
-        return convert(t.arg1) < convert(t.arg)
+        return convert(t.arg1, denoms) < convert(t.arg, denoms)
     else:
         raise SymPyException("Unable to convert " + str(t))
 
@@ -103,7 +122,10 @@ def solve_goal(goal):
         except SymPyException:
             return False
 
-        return lhs != rhs
+        # The two sides are different for all values of the variables
+        # only if their difference is a nonzero number.
+        diff = sympy.simplify(lhs - rhs)
+        return bool(diff.is_number and diff.is_finite and diff.is_zero is False)
     elif goal.is_equals():
         try:
             lhs, rhs = convert(goal.lhs), convert(goal.rhs)
@@ -139,11 +161,33 @@ def solve_with_interval(goal, cond):
 
     var = convert(cond.arg1)
     interval = convert(cond.arg)
-    
+
+    # Denominators appearing in the goal: must be nonzero on the interval.
+    denoms = []
+
+    def only_var(e):
+        # Other variables are arbitrary: solveset would treat them as
+        # generic (nonzero) constants.
+        return not (e.free_symbols - {var})
+
+    def denoms_nonzero():
+        for denom in denoms:
+            if not only_var(denom):
+                return False
+            try:
+                if solveset_wrapper(denom, var, interval) != sympy.EmptySet:
+                    return False
+            except (TypeError, RecursionError, NotImplementedError):
+                return False
+        return True
+
     if goal.is_not() and goal.arg.is_equals():
         try:
-            sympy_goal = convert(goal.arg.arg1) - convert(goal.arg.arg)
+            sympy_goal = convert(goal.arg.arg1, denoms) - convert(goal.arg.arg, denoms)
         except SymPyException:
+            return False
+
+        if not only_var(sympy_goal) or not denoms_nonzero():
             return False
 
         # print("Sympy solve: ", sympy_goal, " on interval ", interval)
@@ -152,8 +196,11 @@ def solve_with_interval(goal, cond):
         return res == sympy.EmptySet
 
     try:
-        sympy_goal = convert(goal)
+        sympy_goal = convert(goal, denoms)
     except SymPyException:
+        return False
+
+    if not only_var(sympy_goal) or not denoms_nonzero():
         return False
 
     # print("Sympy solve: ", sympy_goal, " on interval ", interval)
